@@ -1,15 +1,51 @@
 /-
   C18 — Solid primitives are closed, consistently oriented, outward-facing (and of the right volume).
-  Property theorems about `PolyVerif.Model.Solids` (tied to /repo by the c18 correspondence stream) and
-  `PolyVerif.Gen.CubeTable` (regenerated from cube.go / quad.go on every run).
+
+  Property theorems about `PolyVerif.Model.Solids` (tied to /repo by the c18 correspondence stream:
+  index lists compared exactly for every parameter choice, positions at Float, merge maps against the
+  implementation's geometry) and `PolyVerif.Gen.CubeTable` (regenerated from cube.go / quad.go on
+  every run).  Helper lemmas live in `PolyVerif.Lemmas.Solids`.
+
+  `Closed ts`  : the directed edges of `ts` are pairwise distinct, closed under reversal, and none is a loop —
+                 i.e. every undirected edge is shared by exactly two triangles that traverse it in opposite
+                 directions (closed, consistently oriented surface).
+  `ClosedMod pt ts` : the same after merging vertices by `pt`.
 -/
-import PolyVerif.Model.Solids
+import PolyVerif.Lemmas.Solids
 import PolyVerif.Gen.CubeTable
 import Mathlib.Tactic
 
 namespace PolyVerif
 namespace C18
 open Solids
+
+/-! ## Closedness -/
+
+/-- **UV sphere, all sizes.** For every `rows ≥ 2`, `cols ≥ 3` (exactly the parameters `UVSphere` accepts) the
+    index buffer of the welded sphere is a closed consistently oriented surface on its vertex ids. -/
+theorem uvSphere_closed {rows cols : Nat} (hR : 2 ≤ rows) (hC : 3 ≤ cols) :
+    Closed (uvSphereTris rows cols) := by
+  rw [uvSphereTris_eq_map hR]
+  exact (sphereL_closed hR hC).map_of_injOn (UvValid rows cols) (sphereL_valid hR hC) (uvEnc_injOn hR hC)
+
+example : Closed (uvSphereTris 2 3) := uvSphere_closed (by decide) (by decide)
+example : (uvSphereTris 5 7).length = 2 * 7 + 2 * (3 * 7) := by decide
+
+/-- **Unwelded UV sphere, all sizes**: closed once every vertex is merged with the welded-sphere vertex it
+    is a copy of (`uvUnweldedSrc`, validated against the implementation's positions on every run). -/
+theorem uvSphereUnwelded_closed_mod_merge {rows cols : Nat} (hR : 2 ≤ rows) (hC : 3 ≤ cols) :
+    ClosedMod (uvUnweldedSrc rows cols) (uvSphereUnweldedTris rows cols) := by
+  rw [ClosedMod, uvUnwelded_map_src]
+  exact uvSphere_closed hR hC
+
+/-- **Hemisphere (cap fan + dome), all sizes**: `Hemisphere.UV` emits the sphere's pattern with every
+    triangle reversed, which is closed as well. -/
+theorem hemisphere_closed {rows cols : Nat} (hR : 2 ≤ rows) (hC : 3 ≤ cols) :
+    Closed (hemisphereTris rows cols) := by
+  rw [hemisphereTris_eq_flip]
+  exact (uvSphere_closed hR hC).flip
+
+example : Closed (hemisphereTris 4 5) := hemisphere_closed (by decide) (by decide)
 
 /-- the welded box's triangles: the regenerated `cubeVertIndices` table -/
 def cubeWeldedTris : List Tri := unflat Gen.CubeTable.cubeVertIndices
